@@ -83,6 +83,14 @@ CLAIMED = {
              "C11 typing model; random nested expressions and random derived-type pairs for __builtin_types_compatible_p extend the search. The enumerated spaces are complete on x86_64 "
              "(10 % sample on the other two targets in quick, complete in thorough).",
         note="cmodel.py typing rules are the oracle; clang --target (and gcc for compatibility judgements) arbitrate; enum pointees and top-level qualified arrays are excluded from the compatibility pairs because gcc/clang deviate from C11 there."),
+    "C14": dict(
+        category="exploration", design_ref="DESIGN.md 3/C14",
+        engine="hypothesis+enumeration",
+        technique="model-based property testing with an independent UTF-8/16/32 + escape encoder (clang --target arbitration), exhaustive escape tables for every prefix, exhaustive catalogue of malformed UTF-8 that must be rejected or passed through unaltered",
+        text="Generated string and character literals (all prefixes, all UTF-8 lengths and planes, simple/octal/hex escapes followed by digit-like characters, 2-4 way concatenations, "
+             "explicit bounds, pointers, sizeof) are compiled for three targets and the emitted code units compared with an independent encoder; every octal and hex escape value 0..255 is "
+             "checked for every prefix (plain ones valued as char per target); 24 malformed UTF-8 sequences x 5 prefixes x 2 positions and 16 malformed literals must be diagnosed.",
+        note="Not asserted (implementation-defined or pinned otherwise by the test suite): signedness of u8 string elements, out-of-range escapes in strings, multi-character constants, non-ASCII in unprefixed/u8 character constants."),
 }
 
 NOT_YET = "check not built yet in this round (planned per DESIGN.md section 10); no claim is made"
